@@ -1,10 +1,15 @@
 #!/bin/sh
-# usage: tools/run_seeded_par.sh [N]   -- the regression over every saved seeded change, in N sandboxes (tools/sandbox.sh), in parallel.
+# usage: [PROPS="C12 C15"] tools/run_seeded_par.sh [N]   -- (PROPS: only the changes written for these properties)
+# the regression over every saved seeded change, in N sandboxes (tools/sandbox.sh), in parallel.
 # Each sandbox applies its share of the changes one after the other to its private /repo and runs the check of the property the
 # change was written for; expected: exit 1 with VIOLATION lines.  Results: /var/tmp/sb/reg-<k>.log, summary on stdout.
 N=${1:-4}
 cd "$(dirname "$0")/.."
 ls -d seeded/*/ | sed 's#seeded/##;s#/##' > /var/tmp/sb-list.txt 2>/dev/null || { mkdir -p /var/tmp; ls -d seeded/*/ | sed 's#seeded/##;s#/##' > /var/tmp/sb-list.txt; }
+if [ -n "$PROPS" ]; then
+  for n in $(cat /var/tmp/sb-list.txt); do p=$(python3 -c "import json;print(json.load(open('seeded/$n/meta.json'))['property'])"); case " $PROPS " in *" $p "*) echo $n;; esac; done > /var/tmp/sb-list2.txt
+  mv /var/tmp/sb-list2.txt /var/tmp/sb-list.txt
+fi
 mkdir -p /var/tmp/sb
 k=0
 while [ $k -lt $N ]; do
